@@ -630,7 +630,7 @@ def worker(c):
 
 def cases(ctx):
     rng = ctx.rng
-    per = ctx.pick(16, 200)
+    per = ctx.pick(16, 120)
     cs = []
     for kind in KINDS:
         for i in range(per):
@@ -663,7 +663,7 @@ def run(ctx):
             ctx.inconclusive("harness exception in worker: " + r["exception"] + r.get("trace", "")[-500:])
         else:
             ctx.merge(r)
-    ctx.min_nontrivial = ctx.pick(100, 1200)
+    ctx.min_nontrivial = ctx.pick(100, 800)
     missing = []
     for k in REQUIRED:
         if not any((kk == k or kk.startswith(k + ":") or (k.startswith("orient:") and (kk.startswith(k + "->") or kk.endswith("->" + k[7:])) and kk.startswith("orient:")))
